@@ -80,6 +80,51 @@ theorem others_frame (L prog) (hd : Disjoint L prog) (t : Tid) (σ : List Tid) (
     (run L prog σ s).text f = s.text f ∧ (run L prog σ s).patches f = s.patches f :=
   others_frame_run L prog hd t σ hσ s f hf
 
+/-- **isolation**: for every schedule and every thread `t`, the patch-table entries and the text of all locations
+    `t` mentions, and `t`'s own control state, are exactly those of a run in which ONLY `t` was scheduled (`solo`), for
+    some number `n` of slots — i.e. the projection of any interleaved run on a thread's targets equals its sequential
+    run; the other builders (and callers) are invisible to it. -/
+theorem isolation (L prog) (hd : Disjoint L prog) (t : Tid) (σ : List Tid) :
+    ∃ n, (run L prog σ start).th t = (solo L prog t n start).th t ∧
+      ∀ f, Mentions L prog t f →
+        (run L prog σ start).text f = (solo L prog t n start).text f ∧
+        (run L prog σ start).patches f = (solo L prog t n start).patches f := by
+  have A : Agree L prog t start start :=
+    ⟨rfl, fun _ _ => ⟨rfl, rfl⟩, fun _ => rfl, fun _ => rfl, LInv_init prog _, LInv_init prog _, Or.inl rfl, Or.inl rfl⟩
+  obtain ⟨n, h⟩ := solo_sim L prog hd t σ start start A
+  exact ⟨n, h.th, h.loc⟩
+
+/-- **quiescence transfers**: if every thread's own sequential run, once finished, leaves the locations it writes
+    pristine (a schedule-free fact about each builder alone: it resets what it mocked — property C02; the driver
+    evaluates it for every generated round; `Target` separates mocked functions from origin placeholders, whose bodies
+    goom never restores), then in EVERY interleaving in which all threads have finished every
+    written location is pristine and both locks are free. -/
+theorem quiescent_restored (L prog) (hd : Disjoint L prog) (Target : Loc → Prop)
+    (hseq : ∀ t n, done prog (solo L prog t n start) t → ∀ f, Target f → Writes L prog t f → (solo L prog t n start).text f = .pristine)
+    (σ : List Tid) (hq : ∀ t, done prog (run L prog σ start) t) :
+    (∀ t f, Target f → Writes L prog t f → (run L prog σ start).text f = .pristine) ∧
+    (run L prog σ start).lockP = none ∧ (run L prog σ start).lockM = none := by
+  have I := LInv_run L prog σ start (LInv_init prog _)
+  refine ⟨?_, ?_, ?_⟩
+  · intro t f htg hw
+    obtain ⟨n, hth, hloc⟩ := isolation L prog hd t σ
+    obtain ⟨sec, hsec, hf⟩ := hw
+    have hm : Mentions L prog t f := ⟨sec, hsec, writes_sub_mentions L sec f hf⟩
+    rw [(hloc f hm).1]
+    refine hseq t n ?_ f htg ⟨sec, hsec, hf⟩
+    have := hq t
+    simp only [done] at this ⊢
+    rw [← hth]; exact this
+  · cases h : (run L prog σ start).lockP with
+    | none => rfl
+    | some u => have := I.mpc u h; rw [(hq u).2] at this; simp at this
+  · cases h : (run L prog σ start).lockM with
+    | none => rfl
+    | some u =>
+      have h1 := I.mmc u h
+      have h2 := (I.mm u h1).2
+      rw [(hq u).2] at h2; simp at h2
+
 /-! ### the hypotheses are satisfiable by a non-trivial system -/
 
 def exLayout : Layout := { plh := fun f => f + 1000, pages := fun l => [l / 4, l / 4 + 1], orig := fun f a => a * 7 + f }
@@ -105,5 +150,10 @@ example : Disjoint exLayout exProg := by
 /-- a concrete interleaving with lock contention (thread 1 is scheduled while thread 0 holds the lock) -/
 example : ((run exLayout exProg [0, 1, 0, 1, 0, 0, 0, 0, 1, 2, 0, 0, 0, 0, 0, 0, 0, 0, 0, 0, 0, 0, 0, 0, 0, 0, 0, 0, 0] start).calls.map (·.2.2))
     = [some (3 * 7 + 1 + 5), some (4 * 7 + 3)] := by decide
+
+/-- the sequential hypothesis of `quiescent_restored` holds for the example builders (checked on their complete solo runs) -/
+example : (solo exLayout exProg 0 40 start).text 1 = .pristine ∧ (solo exLayout exProg 1 40 start).text 2 = .pristine ∧
+    done exProg (solo exLayout exProg 0 40 start) 0 ∧ (solo exLayout exProg 0 40 start).text 1001 = .reloc 1 := by
+  refine ⟨by decide, by decide, ⟨by decide, by decide⟩, by decide⟩
 
 end C11
